@@ -185,6 +185,25 @@ def check():
     print(Counter(r['status'] for r in res.values()))
 
 
+def recheck():
+    """run the checks again for the mutants that survived an earlier pass (after rules were strengthened)"""
+    index = {m['id']: m for m in json.load(open(os.path.join(OUT, 'index.json')))}
+    resf = os.path.join(OUT, 'check.json')
+    res = json.load(open(resf))
+    todo = [index[mid] for mid, r in sorted(res.items()) if r['status'] == 'survived-checks']
+    with ThreadPoolExecutor(max_workers=int(os.environ.get('MUT_JOBS', '6'))) as ex:
+        for k, (mid, r) in enumerate(ex.map(check_one, todo)):
+            if r['status'] != 'survived-checks':
+                r['note'] = 'detected on recheck'
+            res[mid] = r
+            if k % 10 == 0:
+                json.dump(res, open(resf, 'w'))
+                print(k, len(todo), mid, r['status'], flush=True)
+    json.dump(res, open(resf, 'w'))
+    from collections import Counter
+    print(Counter(r['status'] for r in res.values()))
+
+
 def suite():
     index = {m['id']: m for m in json.load(open(os.path.join(OUT, 'index.json')))}
     res = json.load(open(os.path.join(OUT, 'check.json')))
@@ -231,4 +250,4 @@ def report():
 
 
 if __name__ == '__main__':
-    {'gen': gen, 'check': check, 'suite': suite, 'report': report}[sys.argv[1]]()
+    {'gen': gen, 'check': check, 'recheck': recheck, 'suite': suite, 'report': report}[sys.argv[1]]()
